@@ -46,7 +46,7 @@ Ltac frame_tac := let k := fresh "k" in let A := fresh in let B := fresh in let 
 Ltac io := cbv beta iota zeta delta [fn_result seqIO bindIO retIO raiseIO liftR io_recv io_set io_get g_catchIO
                                       w_stream w_eff w_store existsb exn_eqb rcv].
 Ltac look := cbn [assoc_s String.eqb Ascii.eqb Bool.eqb].
-Ltac go := repeat (progress (io; look; unfold gint; cbn [g_len g_add g_eq pv_eq gbytes length Z.of_nat Z.eqb bind fst snd])).
+Ltac go := repeat (progress (io; look; unfold gint; cbn [g_len g_add g_eq pv_eq gbytes length Z.of_nat Z.eqb bind fst snd g_truth negb])).
 
 (* _recv(): one recv() result consumed; data appended to the buffer; False on failure or on an empty result *)
 Lemma recv_io l eff st b : has_buf st b ->
